@@ -6,6 +6,7 @@ import (
 	"bytes"
 	"context"
 	"fmt"
+	"io"
 	"os"
 	"os/exec"
 	"path/filepath"
@@ -21,15 +22,15 @@ const (
 )
 
 type Result struct {
-	Generated  int64
-	Distinct   int64
-	Prints     []string // payloads of PrintT("...") lines, unquoted
-	InvViolated string  // name of a violated invariant, "" if none
-	PostFailed bool
-	Failed     bool   // TLC reported an error other than an invariant violation
-	Tail       string // last part of the output, for diagnostics
-	WallS      float64
-	Cmd        string
+	Generated   int64
+	Distinct    int64
+	Prints      []string // payloads of PrintT("...") lines, unquoted
+	InvViolated string   // name of a violated invariant, "" if none
+	PostFailed  bool
+	Failed      bool   // TLC reported an error other than an invariant violation
+	Tail        string // last part of the output, for diagnostics
+	WallS       float64
+	Cmd         string
 }
 
 var (
@@ -51,9 +52,9 @@ func SpecDir() string {
 }
 
 type Opts struct {
-	Module   string            // e.g. "MC_C05"
-	Cfg      string            // full text of the .cfg
-	Dir      string            // scratch dir for this run (created)
+	Module   string // e.g. "MC_C05"
+	Cfg      string // full text of the .cfg
+	Dir      string // scratch dir for this run (created)
 	Workers  int
 	Timeout  time.Duration
 	Files    map[string]string // extra files to place next to the spec (name -> source path)
@@ -62,6 +63,9 @@ type Opts struct {
 	Seed     int64
 	HeapGB   int
 	DFS      bool
+	// OnPrint, if set, is given every printed value as it arrives; returning true consumes it (it is not
+	// kept in Result.Prints).
+	OnPrint func(string) bool
 }
 
 func Run(o Opts) (*Result, error) {
@@ -117,22 +121,27 @@ func Run(o Opts) (*Result, error) {
 	defer cancel()
 	cmd := exec.CommandContext(ctx, "java", args...)
 	cmd.Dir = o.Dir
-	var out bytes.Buffer
-	cmd.Stdout = &out
-	cmd.Stderr = &out
-	t0 := time.Now()
-	runErr := cmd.Run()
-	res := &Result{WallS: time.Since(t0).Seconds(), Cmd: "java " + strings.Join(args, " ")}
-	if ctx.Err() != nil {
-		return res, fmt.Errorf("tlc %s: timeout after %s", o.Module, o.Timeout)
+	// the output is read as it comes (a thorough enumeration prints hundreds of megabytes of units)
+	pipe, err := cmd.StdoutPipe()
+	if err != nil {
+		return nil, err
 	}
-	sc := bufio.NewScanner(&out)
+	cmd.Stderr = cmd.Stdout
+	t0 := time.Now()
+	res := &Result{Cmd: "java " + strings.Join(args, " ")}
+	if err := cmd.Start(); err != nil {
+		return res, err
+	}
+	sc := bufio.NewScanner(pipe)
 	sc.Buffer(make([]byte, 1<<20), 1<<28)
 	var tail []string
 	for sc.Scan() {
 		line := sc.Text()
 		if strings.HasPrefix(line, "\"") && strings.HasSuffix(line, "\"") {
 			if s, err := strconv.Unquote(line); err == nil {
+				if o.OnPrint != nil && o.OnPrint(s) {
+					continue
+				}
 				res.Prints = append(res.Prints, s)
 				continue
 			}
@@ -155,6 +164,12 @@ func Run(o Opts) (*Result, error) {
 		if len(tail) > 60 {
 			tail = tail[1:]
 		}
+	}
+	_, _ = io.Copy(io.Discard, pipe)
+	runErr := cmd.Wait()
+	res.WallS = time.Since(t0).Seconds()
+	if ctx.Err() != nil {
+		return res, fmt.Errorf("tlc %s: timeout after %s", o.Module, o.Timeout)
 	}
 	res.Tail = strings.Join(tail, "\n")
 	if runErr != nil && res.InvViolated == "" && !res.Failed && !res.PostFailed {
